@@ -102,6 +102,27 @@ pub fn gen_corpus(path: &Path, seed: u64, n: u64) -> i32 {
         let _ = f.write_all(&(b.len() as u32).to_le_bytes());
         let _ = f.write_all(&b);
     }
+    // a section of text-bearing structures: host names of every class name-handling code tends to
+    // special-case (IP literals, punycode, trailing dot, wildcard, ...), in SNI / ALPN extensions,
+    // bare and inside a ClientHello record
+    for i in 0..(n / 4).max(400) {
+        let mut r = Rng::new(crate::rng::mix(seed ^ 0x5A1, i));
+        let names: Vec<(u8, Vec<u8>)> = (0..1 + r.below(3)).map(|_| (0u8, crate::gen::hostname(&mut r, 255))).collect();
+        let ext = match i % 3 {
+            0 | 1 => crate::refenc::AExt::Sni(names),
+            _ => crate::refenc::AExt::Alpn(names.into_iter().map(|x| x.1).collect()),
+        };
+        let b = match i % 4 {
+            0 | 1 => ext.to_bytes(),
+            2 => ext.data_bytes(),
+            _ => {
+                let ch = crate::refenc::AHs::ClientHello(crate::refenc::ACh { version: 0x0303, random: r.bytes(32), sid: vec![], ciphers: vec![0x1301, 0xc02f], comp: vec![0], ext: Some(ext.to_bytes()) });
+                crate::refenc::record(0x16, 0x0301, &ch.to_bytes())
+            }
+        };
+        let _ = f.write_all(&(b.len() as u32).to_le_bytes());
+        let _ = f.write_all(&b);
+    }
     0
 }
 
